@@ -112,7 +112,10 @@ def execute(c):
             r, _ = read_swc(src, extra_cols=["e"], sort_nodes=True)
         mp, rids, rpids, rcols = proj_df(r, enc)
         s = is_sorted((r["id"].to_numpy(), r["pid"].to_numpy()))
-        r2 = sort_nodes(r)
+        if (lib.vid(c) // 2) % 2:
+            r2 = sort_nodes(r)
+        else:
+            r2 = r.copy(); sort_nodes_(r2)      # the other form of the same operation, applied to what the first one returned
         mp2, rids2, rpids2, rcols2 = proj_df(r2, enc)
         # second-generation map is relative to the first result's rows
         ch = 0 if df.equals(before) else 1
